@@ -200,6 +200,7 @@ Proof.
     + intros s0 pend rk s2 p' _ [I0 S0] E0. split; [eapply record_step_idx; eauto | eapply record_step_sidx; eauto].
     + intros prop s0 k row s2 [I0 S0] E0. apply share_step_frame in E0. destruct E0 as (u & p & x1 & h & _).
       split; [eapply (idx_inv_ext s0); eauto | apply (sidx_inv_ext s0); assumption].
+  - exact Sx.
 Qed.
 
 Lemma run_sidx ops : forall s, idx_inv s -> sidx_inv s -> hist_ok s ops = true -> sidx_inv (run ops s).
